@@ -49,7 +49,11 @@ pub fn instantiate(
     // add all voters
     for voter in msg.voters.iter() {
         let key = deps.api.addr_validate(&voter.addr)?;
-        VOTERS.save(deps.storage, &key, &voter.weight)?;
+        // a repeated address would be counted twice in total_weight but stored once
+        VOTERS.update(deps.storage, &key, |old| match old {
+            Some(_) => Err(ContractError::DuplicateVoter {}),
+            None => Ok(voter.weight),
+        })?;
     }
     Ok(Response::default())
 }
